@@ -1053,6 +1053,48 @@ fn main() {
                 }
             }
         }
+        "oracle-dhcpzero" => {
+            // Known finding dhcp-zero-timeout-spins-poll (D29): one DHCPv4 socket whose retry configuration has
+            // discover_timeout = 0 (only shard 0 runs it; `zero=0` is the control with the default configuration).
+            // Interface::poll runs on a second thread; if it has not returned after 0.8 s the case is reported.
+            let run = |zero: bool| -> Option<usize> {
+                let (txc, rxc) = std::sync::mpsc::channel();
+                std::thread::spawn(move || {
+                    let mut dev = QDev::new(Medium::Ethernet, 1514);
+                    let cfg = Config::new(hw(Medium::Ethernet, 1));
+                    let mut iface = Interface::new(cfg, &mut dev, Instant::ZERO);
+                    let mut sockets = SocketSet::new(Vec::new());
+                    let mut d = dhcpv4::Socket::new();
+                    if zero {
+                        let mut rc = dhcpv4::RetryConfig::default();
+                        rc.discover_timeout = Duration::ZERO;
+                        d.set_retry_config(rc);
+                    }
+                    sockets.add(d);
+                    iface.poll(Instant::from_millis(1000), &mut dev, &mut sockets);
+                    let _ = txc.send(dev.drain_tx().len());
+                });
+                rxc.recv_timeout(std::time::Duration::from_millis(800)).ok()
+            };
+            let mut nf = 0;
+            if seed % 1000 == 0 {
+                match run(false) {
+                    Some(1) => {}
+                    other => {
+                        writeln!(out, "FAIL c03-dhcp-default-config-control :: default retry configuration: poll -> {:?} (expected one DISCOVER)", other).ok();
+                        nf += 1;
+                    }
+                }
+                if run(true).is_none() {
+                    writeln!(out, "FAILCASE\ncase dhcpzero medium=eth discover_timeout=0\npoll 1000\nend").ok();
+                    writeln!(out, "FAIL c03-poll-hang-dhcp-zero-retry-timeout :: one DHCPv4 socket with RetryConfig.discover_timeout = 0, no received frame: Interface::poll(1 s) has not returned after 0.8 s").ok();
+                    nf += 1;
+                }
+            }
+            writeln!(out, "STATS {{\"cases\":{},\"failing_cases\":{}}}", if seed % 1000 == 0 { 2 } else { 0 }, nf).ok();
+            out.flush().ok();
+            std::process::exit(0); // the spinning thread never ends
+        }
         "oracle" | "oracle-replay" => {
             let mut rng = Rng::new(seed ^ 0xF022);
             let mut fails: Vec<String> = vec![];
